@@ -18,7 +18,7 @@ RECURSIVE Strs(_)
 Strs(n) == IF n = 0 THEN {<<>>} ELSE {<<>>} \cup { <<x>> \o r : x \in Alphabet, r \in Strs(n - 1) }
 \* the design may answer any error where the statement says "an error"
 SameFind(a, b) == IF b.k = "err" THEN a.k = "err" ELSE a = b
-ASSUME \A s \in Strs(SmallLen) : \A W \in {4, 5, 6, 12} : SameFind(DesignHdrFind(s, W), HdrFindSpec(s, W))
+ASSUME \A s \in Strs(SmallLen) : \A win \in {4, 5, 6, 12} : SameFind(DesignHdrFind(s, win), HdrFindSpec(s, win))
 
 M == HdrMagic
 Frag == << <<214, 80, 82>>, <<214, 80, 82, 233>>, <<214, 214, 80, 82, 232>>, <<80, 82, 232, 214>>, M \o M, <<214, 80>> \o M >>
